@@ -12,12 +12,6 @@ open Vgw Vgw.Model.Gw
 /-- what GET shows of an object stored from `p` -/
 def stored (p : PutSpec) (vid : Bytes) : Ver := mkVer p vid
 
-theorem versions_setVersions (bk : Bucket) (k : Bytes) (vs : List Ver) (h : vs ≠ []) :
-    (bk.setVersions k vs).versions k = vs := by
-  unfold Bucket.setVersions Bucket.versions
-  have : vs.isEmpty = false := by cases vs <;> simp_all
-  simp [this, kvFind_kvInsert]
-
 /-- **GET after an acknowledged PUT returns exactly what was put** (unversioned configuration):
 body segments, size, ETag (the digest the environment computed over the body), content type,
 user metadata, content headers, tag count. For every state, key, body and metadata set, every
@@ -40,7 +34,11 @@ theorem get_after_put (cfg : Cfg) (hv : cfg.versioning = false) (s : State) (w w
     cases hchk : verifyAccess cfg bk w .write actPutObject k with
     | some e => simp only [hchk] at hput; exact absurd hput (errR_code_ne _)
     | none =>
-      simp only [hchk, putVersions, hv, Bool.false_and, Bool.false_eq_true, if_false]
+      simp only [hchk] at hput ⊢
+      cases hlk : lockCheck bk w now true k [] with
+      | some e => simp only [hlk] at hput; exact absurd hput (errR_code_ne _)
+      | none =>
+      simp only [hlk, putVersions, hv, Bool.false_and, Bool.false_eq_true, if_false]
       have hfind : findBucket (setBucket s (bk.setVersions k [mkVer p []])) b = some (bk.setVersions k [mkVer p []]) := by
         have := findBucket_setBucket s (bk.setVersions k [mkVer p []])
         have hn : (bk.setVersions k [mkVer p []]).name = b := by
@@ -74,6 +72,10 @@ theorem put_other_bucket_untouched (cfg : Cfg) (s : State) (w : Who) (now : Int)
     | some e => rfl
     | none =>
       simp only
+      cases lockCheck bk w now true k [] with
+      | some e => rfl
+      | none =>
+      simp only
       apply findBucket_setBucket_ne
       have hname := findBucket_name s b bk hb
       unfold Bucket.setVersions
@@ -86,6 +88,6 @@ def spec : PutSpec := { data := [⟨7, 0, 5⟩], etag := [34, 97, 34], umeta := 
 def root : Who := ⟨[114], true, .admin⟩
 example : (handle {} st root 0 (.putObject [98] [107] spec [])).2.code = "" := by decide
 example : (handle {} (handle {} st root 0 (.putObject [98] [107] spec [])).1 root 0 (.getObject [98] [107] [])).2
-    = okR (verFields (stored spec []) true) := by decide
+    = okR (verFields [] (stored spec []) true) := by decide
 
 end Vgw.Props.C01
